@@ -160,9 +160,7 @@ def doc_clean(ix, o, copies, fsize, facq, freg_days, days_as_implemented=False):
 
 
 # ---- one invocation of each command family ----------------------------------------------------------------------------
-def run_clean(ctx, rng, base, spec, cases):
-    ix = Ix(spec, base)
-    w = ix.w
+def clean_options(rng, base, spec, ix):
     node = rng.choice(spec["nodes"])
     o = {"node": ix.node_id[node["name"]], "acqs": [], "days": None, "listed": None, "size": None, "targets": [], "goal": "M", "bad": rng.random() < 0.3}
     args = [node["name"], "--force", "--archive-ok"]
@@ -194,6 +192,22 @@ def run_clean(ctx, rng, base, spec, cases):
         t = rng.sample(spec["groups"], rng.choice([1, len(spec["groups"]), rng.randint(1, len(spec["groups"]))]))
         args += [f"--target={x}" for x in t]
         o["targets"] = [ix.group_id[x] for x in t]
+    return args, o
+
+
+def run_clean(ctx, rng, base, spec, cases, forced=None):
+    ix = Ix(spec, base)
+    w = ix.w
+    if forced is not None:
+        # a fixed invocation (corpus): {"node": name, "mode": mark|now|cancel, "size": GiB or None, "bad": bool}
+        node = next(n for n in spec["nodes"] if n["name"] == forced["node"])
+        o = {"node": ix.node_id[node["name"]], "acqs": [], "days": None, "listed": None, "size": None, "targets": [], "goal": {"mark": "M", "now": "N", "cancel": "Y"}[forced["mode"]], "bad": forced.get("bad", False)}
+        args = [node["name"], "--force", "--archive-ok"] + {"mark": [], "now": ["--now"], "cancel": ["--cancel"]}[forced["mode"]] + (["--include-bad"] if o["bad"] else [])
+        if forced.get("size") is not None:
+            args.append(f"--size={forced['size']}")
+            o["size"] = int(forced["size"] * 2 ** 30)
+    else:
+        args, o = clean_options(rng, base, spec, ix)
     before = ix.copies()
     idx_term = ix.term()
     # --check first: must not change anything and report the same number of files
@@ -232,12 +246,18 @@ def run_clean(ctx, rng, base, spec, cases):
         sig = "C18:days-filter-inverted" if only_days else "C18:clean-selection"
         ctx.fail(sig, f"node clean {' '.join(args[1:])}: changed {changed}, documented selection {exp}", rp)
     # idempotence
+    idx_term2 = ix.term()
     code2, out2, exc2 = cw.invoke("node clean", args)
-    if ix.copies() != after:
-        ctx.fail("C18:not-idempotent", f"node clean {args} repeated changed more records", rp)
+    after2 = ix.copies()
+    if after2 != after:
+        ctx.fail("C18:not-idempotent", f"node clean {args} repeated changed more records: {[(a[0], b[4], a[4]) for a, b in zip(after2, after) if a != b]}", rp)
     cases["c"].append((ctup(idx_term, f"(CO {cn(o['node'])} {clist([cn(a) for a in o['acqs']], 'N')} {copt(o['days'], cz, 'Z')} {lopt(o['listed'])} {copt(o['size'], cz, 'Z')} "
                             f"{clist([cn(t) for t in o['targets']], 'N')} {WANTS[o['goal']]} {cbool(o['bad'])})",
                             clist([ctup(cn(c[0]), WANTS[c[4]]) for c in after], "(N * wants)")), rp))
+    # the repeated command is a case of its own: the model on the index the first run left behind
+    cases["c"].append((ctup(idx_term2, f"(CO {cn(o['node'])} {clist([cn(a) for a in o['acqs']], 'N')} {copt(o['days'], cz, 'Z')} {lopt(o['listed'])} {copt(o['size'], cz, 'Z')} "
+                            f"{clist([cn(t) for t in o['targets']], 'N')} {WANTS[o['goal']]} {cbool(o['bad'])})",
+                            clist([ctup(cn(c[0]), WANTS[c[4]]) for c in after2], "(N * wants)")), dict(rp, repeated=True)))
 
 
 def run_verify(ctx, rng, base, spec, cases):
@@ -436,6 +456,14 @@ def explore(ctx, n=None):
             return 7
 
     run_clean(ctx, FixedRng(), base, kf, cases)
+    # size budgets that are met exactly by whole files (a repeated command must stop at the same file)
+    GIB = 2 ** 30
+    for nfiles, fsz, wants0, size, mode in ((4, GIB, "YYYY", 2.0, "mark"), (4, GIB, "MYYY", 2.0, "mark"), (4, GIB, "YYYY", 2.0, "now"), (5, GIB // 2, "YYYYY", 1.5, "mark"),
+                                            (4, GIB, "NMYY", 2.0, "mark"), (3, GIB, "YYY", 1.0, "now"), (4, GIB, "MMYY", 3.0, "now"), (6, GIB // 2, "YMYMYY", 2.0, "mark")):
+        sp = {"groups": ["G1"], "nodes": [{"name": "N1", "group": "G1", "stype": "F", "host": "h1", "active": True}], "acqs": ["acq1"],
+              "files": [{"acq": "acq1", "name": f"f{i}", "size": fsz, "reg_days_ago": 1} for i in range(nfiles)],
+              "copies": [{"file": i, "node": "N1", "has": "Y", "wants": wants0[i]} for i in range(nfiles)], "reqs": [], "rules": [], "ireqs": []}
+        run_clean(ctx, rng, base, sp, cases, forced={"node": "N1", "mode": mode, "size": size})
     for k in range(n):
         spec = cw.gen_spec(rng)
         runners[k % len(runners)](ctx, rng, base, spec, cases)
